@@ -298,6 +298,22 @@ pub fn alphabet(name: &str) -> Vec<Op> {
             Op::Add(b(var(0), var(0))),
             Op::Add(b(var(0), var(1))),
         ],
+        "SAME" => vec![
+            // two different e-nodes of ONE class that become congruent through a later union of their
+            // children: the class must gain a symmetry ...
+            Op::Union(b(var(0), h(1)), b(h(1), var(0))),
+            Op::Union(h(0), var(0)),
+            Op::Union(u(f(0, 1)), u(g(1, 0))),
+            Op::Union(f(0, 1), g(0, 1)),
+            // ... or lose a slot
+            Op::Union(b(h(0), var(1)), b(h(0), var(2))),
+            Op::Union(b(h(0), var(1)), b(u(var(2)), u(h(0)))),
+            Op::Union(u(var(0)), h(0)),
+            Op::Union(u(h(0)), var(0)),
+            // under a binder
+            Op::Union(lam(100, b(f(100, 0), var(1))), lam(100, b(g(100, 1), var(0)))),
+            Op::Add(b(var(0), var(1))),
+        ],
         "MICRO" => vec![
             Op::Union(t3(0, 1, 2), t3(1, 2, 0)),       // 3-cycle
             Op::Union(t3(0, 1, 2), t3(1, 0, 2)),       // transposition
